@@ -69,6 +69,9 @@ def terminators():
         ('user-str-empty', ['class Boom(Exception):', '    def __str__(self):', '        return ""', 'raise Boom()'],
          'Boom', ['Boom', 'Exception', 'BaseException', 'object'], 3),
         ('user-base', ['class Base(BaseException):', '    pass', 'raise Base("x")'], 'Base', ['Base', 'BaseException', 'object'], 2),
+        # the learner's own subclass of a builtin exception keeps its class
+        ('user-valueerror-subclass', ['class BadAge(ValueError):', '    pass', 'raise BadAge("k")'],
+         'BadAge', ['BadAge', 'ValueError', 'Exception', 'BaseException', 'object'], 2),
         ('user-falsy-len', ['class Boom(Exception):', '    def __len__(self):', '        return 0', 'raise Boom("x")'],
          'Boom', ['Boom', 'Exception', 'BaseException', 'object'], 3),
         ('user-falsy-bool', ['class Boom(Exception):', '    def __bool__(self):', '        return False', 'raise Boom("x")'],
@@ -102,7 +105,7 @@ def terminators():
         ('raise-bdbquit', ['import bdb', 'raise bdb.BdbQuit()'], 'BdbQuit', ['BdbQuit', 'Exception', 'BaseException', 'object'], 1),
         # a class without a name
         ('user-empty-class-name', ['E = type("", (Exception,), {})', 'raise E("x")'], '', ['', 'Exception', 'BaseException', 'object'], 1),
-        ('user-keyerror-sub', ['class MyKey(KeyError):', '    pass', 'raise MyKey("k")'], 'KeyError',
+        ('user-keyerror-sub', ['class MyKey(KeyError):', '    pass', 'raise MyKey("k")'], 'MyKey',
          ['MyKey', 'KeyError', 'LookupError', 'Exception', 'BaseException', 'object'], 2),
     ]
     # the failing statement sits inside try/finally or in a handler that re-raises: the line CPython's own traceback gives for
@@ -117,6 +120,7 @@ def terminators():
         ('fail-in-loop-else', ['for i in range(2):', '    pass', 'else:', '    y = None.x', 'w = 5'], 'AttributeError'),
         ('raise-from', ['try:', '    y = int("x")', 'except ValueError as e:', '    raise KeyError("k") from e'], 'KeyError'),
     ]
+
     for tag, lines, cls in structured:
         user.append((tag, lines, cls, mro_of(cls), raising_offset(lines)))
     for tag, lines, cls, mro, off in user:
@@ -142,7 +146,10 @@ def terminators():
                ('blocked-open-rbplus', ['f = open("README.rst", "rb+")', 'f.close()']),
                ('blocked-open-rplusb', ['f = open("README.rst", "r+b")', 'f.close()']),
                ('blocked-open-rtplus', ['f = open("README.rst", mode="rt+")', 'f.close()']),
-               ('blocked-open-append', ['f = open("README.rst", "a")', 'f.close()'])]
+               ('blocked-open-append', ['f = open("README.rst", "a")', 'f.close()']),
+               # exclusive creation is writing as well (the runner removes the file should it ever appear)
+               ('blocked-open-exclusive', ['f = open("/var/tmp/verif_c04_created_by_student.txt", "x")', 'f.close()']),
+               ('blocked-open-exclusive-b', ['f = open("/var/tmp/verif_c04_created_by_student.txt", mode="xb")', 'f.close()'])]
     for tag, lines in blocked:
         # raised inside pedal's replacement function, not on a student line: the location clause does not apply
         out.append((tag, lines, None, None, 'exec', None))
